@@ -25,6 +25,13 @@
 (* argumentPairs, next; in several orders - reading is pure) x the frame that *)
 (* is read (the module's own, the parent, a frame made by newChild) x depth.  *)
 (* Every read is a view of ONE argument map (HView).                          *)
+(* Family "refs" (round 8): the text handed to preprocess / expandTemplate /  *)
+(* callParserFunction is built in Lua and holds ARGUMENT REFERENCES whose     *)
+(* names are arguments of the enclosing template call / of the #invoke / of   *)
+(* neither; a wrapper call's argument written on the page may itself be a     *)
+(* reference.  The expectation is the expansion in the PAGE context (no       *)
+(* frame); the readings against the #invoke's own / the enclosing call's      *)
+(* arguments are computed for the report only (RExpected).                    *)
 EXTENDS Transclusion, Json
 
 CONSTANT Universe
